@@ -317,6 +317,7 @@ func (l *Listener) Accept() (net.Conn, error) {
 	if len(l.queue) > 0 {
 		c := l.queue[0]
 		l.queue = l.queue[1:]
+		vsched.NoteProgress()
 		return c, nil
 	}
 	return nil, ErrClosed
